@@ -65,6 +65,10 @@ def generate_all():
     root = gen_root()
     meta = os.path.join(root, "results.json")
     if os.path.exists(meta):
+        try:
+            os.utime(root, None)      # mark as in use (pruning goes by age)
+        except OSError:
+            pass
         return root, json.load(open(meta))
     exe = ensure_sbeppc()
     with Lock("gen"):
